@@ -478,28 +478,37 @@ def rule_AI11(rep, prog, q):
     rep.saw(fn)
     k = {"WORKQ_MAX_TRACKED_TIDS": consts.get(["DISPATCH_WORKQ_MAX_PTHREAD_COUNT"])["DISPATCH_WORKQ_MAX_PTHREAD_COUNT"]}   # WORKQ_MAX_TRACKED_TIDS is a file-local alias of it
     pokes = calls_named(fn, "_dispatch_root_queue_poke")
-    stalled = []
-    for c in pokes:
-        cx = paths.dom_ctx(fn, c)
-        for cid, tv in cx.truth.items():
-            t = fn.insts[cid]
-            if t.op == "icmp" and t.d["pred"] in ("eq", "ne") and tv == (t.d["pred"] == "eq") and t.ops[1][0] == "c" and t.ops[1][1] == 0:
-                l = fn.inst(t.ops[0])
-                if l is not None and l.op == "load" and "num_runnable" in prog.fields(l):
-                    stalled.append(c)
-    if not stalled:
-        rep.unknown(rid, "no poke under num_runnable == 0 found in _dispatch_workq_monitor_pools")
-    for c in stalled:
-        lf = linform(fn, c.ops[2])
-        loads = [a for a, co in lf.items() if isinstance(a, tuple) and a[0] == "i" and fn.insts[a[1]].op == "load" and "target_runnable" in prog.fields(fn.insts[a[1]]) and co == 1]
-        const = lf.get(1, 0)
-        if const >= 1 << 31:
-            const -= 1 << 32
-        ok = len(loads) == 1 and len(lf) == 2 and const == -k["WORKQ_MAX_TRACKED_TIDS"]
-        rep.require(rid, ok, c.loc, fn.name, "stalled-pool-floor",
-                    "_dispatch_workq_monitor_pools pokes a queue whose workers are all blocked with floor %s instead of target_runnable - %d: the pool stops growing "
-                    "at a small multiple of the CPU count, so when more items than that block on a later item of the same global queue the later item never runs"
-                    % ({str(a): co for a, co in lf.items()}, k["WORKQ_MAX_TRACKED_TIDS"]), sample={"poke": c.loc})
+    tests = []
+    for t in fn.all_insts():
+        if t.op == "icmp" and t.d["pred"] in ("eq", "ne") and t.ops[1][0] == "c" and t.ops[1][1] == 0:
+            l = fn.inst(t.ops[0])
+            if l is not None and l.op == "load" and "num_runnable" in prog.fields(l):
+                tests.append(t)
+    if not tests or not pokes:
+        rep.unknown(rid, "anchor vanished in _dispatch_workq_monitor_pools (num_runnable == 0 tests=%d, pokes=%d)" % (len(tests), len(pokes)))
+        return
+    # every way from "this queue has no runnable worker" to a poke carries floor = target_runnable - WORKQ_MAX_TRACKED_TIDS (the poke may be a
+    # shared tail: the floor is then resolved along the path)
+    n = 0
+    for t in tests:
+        ctx = paths.PathCtx(fn)
+        ctx.truth[t.id] = (t.d["pred"] == "eq")
+        for kind, inst, cx, path in paths.walk(fn, t, lambda i: i in pokes, ctx=ctx):
+            if kind != "hit":
+                continue
+            n += 1
+            lf = linform(fn, cx.resolve(inst.ops[2]))
+            loads = [a_ for a_, co in lf.items() if isinstance(a_, tuple) and a_[0] == "i" and fn.insts[a_[1]].op == "load" and "target_runnable" in prog.fields(fn.insts[a_[1]]) and co == 1]
+            const = lf.get(1, 0)
+            if const >= 1 << 31:
+                const -= 1 << 32
+            ok = len(loads) == 1 and len(lf) == 2 and const == -k["WORKQ_MAX_TRACKED_TIDS"]
+            rep.require(rid, ok, inst.loc, fn.name, "stalled-pool-floor",
+                        "_dispatch_workq_monitor_pools pokes a queue whose workers are all blocked with floor %s instead of target_runnable - %d: the pool stops growing "
+                        "at a small multiple of the CPU count, so when more items than that block on a later item of the same global queue the later item never runs"
+                        % ({str(a_): co for a_, co in lf.items()}, k["WORKQ_MAX_TRACKED_TIDS"]), sample={"poke": inst.loc})
+    if n < 1:
+        rep.unknown(rid, "no poke reachable from a num_runnable == 0 outcome in _dispatch_workq_monitor_pools")
 
 
 def rule_CP12(rep, prog, q):
